@@ -19,6 +19,11 @@
   OBLIGATION c07_nonfinite_not_roundtrip
   OBLIGATION c07_id_large_uint_rejected
   OBLIGATION c07_nonzero_unsigned_isvalid_rejects_domain
+  OBLIGATION c07_schema_accept
+  OBLIGATION c07_schema_reject
+  OBLIGATION c07_schema_pinned_exact
+  OBLIGATION c07_schema_first_registered_refuses_u64
+  OBLIGATION c07_schema_first_registered_refuses_i32
   OPEN c07_f32_roundtrip
 -/
 import AGV.Lemmas.Scalars
@@ -225,7 +230,84 @@ theorem c07_nonzero_unsigned_isvalid_rejects_domain :
       ∧ isValidInt { nonZeroUnsignedIsValidI64 := true } t x = false := by
   refine ⟨table[18], List.getElem_mem _, .int 9223372036854775808, 9223372036854775808, ?_, ?_⟩
   · simp [table, parseInt, readable, u64Max, cmpHolds, wrap]
-  · simp [table, isValidInt, readable, i64Min, i64Max]
+  · simp [table, isValidInt, readableB, i64Min, i64Max]
+
+-- ------------------------------------------------------------------ through a schema
+
+theorem schemaValid_none (order : List Entry) (t : Entry) (v : GValue) :
+    schemaValid .none order t v = isValidInt .none t v := by
+  simp [schemaValid, Defects.none]
+
+/-- THROUGH A SCHEMA (validation pre-check registered under `Int`, then the resolver's `parse`): an
+    argument of any integer type, whatever other integer types the schema registers and in whatever
+    order, is accepted exactly for the integer numbers of the type's domain, and the resolver gets
+    that integer — for every value, integers of any size included. -/
+theorem c07_schema_accept (order : List Entry) (t : Entry) (ht : t ∈ table) (x : GValue) (r : Int) :
+    schemaAnswer .none order t x = .accepted r ↔ ∃ i, x = .int i ∧ r = i ∧ inIntDomain t.name i := by
+  rw [← c07_accept t ht x r]
+  unfold schemaAnswer
+  constructor
+  · intro h
+    split at h
+    · cases h
+    · split at h <;> simp_all
+  · intro h
+    have hv := c07_isvalid_complete t ht x r h
+    simp [schemaValid_none, hv, h]
+
+/-- … and every other value is refused (at validation or by the resolver's `parse`), never a
+    panic. -/
+theorem c07_schema_reject (order : List Entry) (t : Entry) (ht : t ∈ table) (x : GValue)
+    (h : ¬ ∃ i, x = .int i ∧ inIntDomain t.name i) : ∃ s, schemaAnswer .none order t x = .rejected s := by
+  obtain ⟨e, he⟩ := c07_reject_is_error t ht x h
+  unfold schemaAnswer
+  split
+  · exact ⟨_, rfl⟩
+  · simp [he]
+
+
+/-- Witness (finding C07-int-validator-of-first-registered), a `Schema`: `add_system_types`
+    registers `i32` first, so `Int` positions are validated with `is_i64()` — the `u64` value 2^64-1
+    (in the domain) is refused by validation. -/
+theorem c07_schema_first_registered_refuses_u64 :
+    ∃ f ∈ table, ∃ t ∈ table, f.name = "i32" ∧ t.name = "u64" ∧
+      inIntDomain t.name 18446744073709551615 ∧
+      schemaAnswer { intValidatorOfFirstRegistered := true } [f, t] t (.int 18446744073709551615)
+        = .rejected .validation := by
+  refine ⟨table[2], List.getElem_mem _, table[7], List.getElem_mem _, by decide, by decide, by decide, by decide⟩
+
+/-- Witness, the other direction (a registry in which `u64` registers first): the `i32` value -5
+    is refused by validation. -/
+theorem c07_schema_first_registered_refuses_i32 :
+    ∃ f ∈ table, ∃ t ∈ table, f.name = "u64" ∧ t.name = "i32" ∧
+      inIntDomain t.name (-5) ∧
+      schemaAnswer { intValidatorOfFirstRegistered := true } [f, t] t (.int (-5)) = .rejected .validation := by
+  refine ⟨table[7], List.getElem_mem _, table[2], List.getElem_mem _, by decide, by decide, by decide, by decide⟩
+
+/-- The pinned behaviour, exactly: an integer is accepted iff it is in the domain of the
+    position's type AND the 64-bit view of the FIRST registered integer type can read it. -/
+theorem c07_schema_pinned_exact (f : Entry) (rest : List Entry) (t : Entry) (ht : t ∈ table) (i r : Int) :
+    schemaAnswer { intValidatorOfFirstRegistered := true } (f :: rest) t (.int i) = .accepted r ↔
+      (r = i ∧ inIntDomain t.name i ∧ readable f.accessor i) := by
+  unfold schemaAnswer
+  simp only [schemaValid, List.headD_cons, if_true, pinnedValidInt]
+  have hb : readableB f.accessor i = true ↔ readable f.accessor i := by
+    cases f.accessor <;> simp [readableB, readable]
+  by_cases hr : readable f.accessor i
+  · simp only [hb.mpr hr, Bool.true_eq_false, if_false]
+    constructor
+    · intro h
+      split at h <;> try cases h
+      rename_i r' hp
+      obtain ⟨j, hj, rfl, hd⟩ := (c07_accept t ht (.int i) _).mp hp
+      cases hj; exact ⟨rfl, hd, hr⟩
+    · rintro ⟨rfl, hd, _⟩
+      rw [parseInt_in t ht _ hd]
+  · have : readableB f.accessor i = false := by
+      cases hx : readableB f.accessor i
+      · rfl
+      · exact absurd (hb.mp hx) hr
+    simp [this, hr]
 
 /-- OPEN: every `f32` round-trips (`x as f64 as f32 = x`).  The widening and the rounding
     narrowing are modelled bit-exactly (`widen`, `narrow`, `roundFloat`) and compared with the
